@@ -113,6 +113,49 @@ def gen_case(rng, idx, tier):
     return {"idx": idx, "files": files, "runs": runs, "cli": cli}
 
 
+TRANSFER_KEYS = ["rule_id", "file_path", "line", "column", "message", "severity", "suggestion"]
+
+
+def transfer_probe(rng, drv, res, n: int) -> None:
+    """Tie of the transfer-format model (`toDict` / `fromDict`) to `Violation.to_dict` / `from_dict`: records as the
+    workers produce them, and records with a key missing, another severity, or an absent suggestion.  Values keep
+    their types (the implementation does not type-check; the model is only claimed for well-typed records)."""
+    from src.core.types import Severity, Violation
+    texts = ["", "x", "nesting.excessive-depth", "src/a b/é.py", "Zeile \"7\"\n", "error", "severity", "\u0e44\u0e17\u0e22", "a" * 40]
+    for _ in range(n):
+        v = Violation(rule_id=rng.choice(texts), file_path=rng.choice(texts), line=rng.choice([0, 1, 7, -1, 10 ** 12]),
+                      column=rng.choice([0, 3, 120]), message=rng.choice(texts), severity=Severity.ERROR,
+                      suggestion=rng.choice([None, None] + texts))
+        d = v.to_dict()
+        kind = rng.choice(["as produced", "as produced", "key missing", "other severity", "keys reordered"])
+        pairs = [[k, d[k]] for k in d]
+        if kind == "key missing":
+            gone = rng.choice(TRANSFER_KEYS)
+            pairs = [kv for kv in pairs if kv[0] != gone]
+        elif kind == "other severity":
+            pairs = [[k, rng.choice(["warning", "ERROR", "", "info"])] if k == "severity" else [k, x] for k, x in pairs]
+        elif kind == "keys reordered":
+            rng.shuffle(pairs)
+        res.evaluations += 1
+        res.bump("transfer record", kind)
+        try:
+            back = Violation.from_dict(dict(pairs))
+            impl = {"ok": True, "dict": back.to_dict(), "same": back == v}
+        except (KeyError, ValueError) as exc:
+            impl = {"ok": False, "error": type(exc).__name__}
+        m = drv.call({"prop": PROP, "op": "dict", "dict": pairs})
+        model_dict = dict(m["dict"]) if m.get("ok") else None
+        if kind in ("as produced", "keys reordered"):
+            res.nontrivial.add(core.canon(["transfer", pairs]))
+        agrees = impl["ok"] == m["ok"] and (not impl["ok"] or (impl["dict"] == model_dict and list(impl["dict"]) == [k for k, _ in m["dict"]]))
+        lossless = kind not in ("as produced", "keys reordered") or (impl["ok"] and impl["same"] and impl["dict"] == d)
+        if not agrees or not lossless:
+            res.disagreements.append(core.Disagreement(
+                case={"transfer_record": pairs, "kind": kind}, impl=impl, model=m, spec=d, property_fails=not lossless,
+                note="Violation.from_dict/to_dict differs from the transfer-format model (fromDict/toDict)"
+                     + ("" if lossless else ": a worker's violation does not reach the parent unchanged")))
+
+
 def run(tier: str, seed: int, st: core.ProofStatus) -> core.Result:
     res = core.Result()
     res.rule = ("seeded multi-language projects (2-40 files in 4 directories with repeated base names, planted per-file findings and "
@@ -190,6 +233,7 @@ def run(tier: str, seed: int, st: core.ProofStatus) -> core.Result:
                         model=None, spec=None, property_fails=True,
                         note=f"`thailint {cli['cmd']}` (config file: {cli['config_file']!r}) sequential vs --parallel differ: {len(only_s)} only sequential, "
                              f"{len(only_p)} only parallel, exits {s['exit']}/{p['exit']}"))
+    transfer_probe(rng, drv, res, 120 if tier == "quick" else 3000)
     drv.close()
     res.assumptions += ["completion orders are forced after all futures finished; interleavings inside the pool are the OS's"]
     return res
@@ -198,6 +242,18 @@ def run(tier: str, seed: int, st: core.ProofStatus) -> core.Result:
 def replay(path: str, st: core.ProofStatus) -> int:
     data = json.loads(Path(path).read_text())
     case = data.get("case") or data.get("witness")
+    if case and "transfer_record" in case:
+        from src.core.types import Violation
+        pairs = case["transfer_record"]
+        try:
+            back = Violation.from_dict(dict(pairs)).to_dict()
+        except (KeyError, ValueError) as exc:
+            back = type(exc).__name__
+        print(json.dumps({"record": pairs, "after_from_dict_to_dict": back}))
+        if case.get("kind") in ("as produced", "keys reordered") and back != dict(pairs):
+            print(f"VIOLATION property={PROP} replay={path}")
+            return 1
+        return 0
     if not case or "project" not in case:
         print("replay file names a proof obligation only:", json.dumps(data.get("no_longer_checks")))
         return 1
